@@ -67,13 +67,12 @@ Unify(s, A1, A2) ==
 UnifyArgs(s, a1, a2, i) == IF s.st # "ok" \/ i > Len(a1) THEN s ELSE UnifyArgs(Unify(s, a1[i], a2[i]), a1, a2, i + 1)
 
 \* ---- binding graph of the internal variables (ghost) ----
-BEdges(uf) == UNION { { <<k, v>> : v \in IvsIn(uf[k + 1]) \ {k} } : k \in 0..(Len(uf) - 1) }
-RECURSIVE Closure(_,_,_)
-Closure(S, E, n) == IF n = 0 THEN S ELSE
-     LET S2 == S \cup { e[2] : e \in { e \in E : e[1] \in S } } IN IF S2 = S THEN S ELSE Closure(S2, E, n - 1)
-CyclicUf(uf) == LET E == BEdges(uf) IN
-     \E k \in 0..(Len(uf) - 1) : (k \in IvsIn(uf[k + 1]) /\ uf[k + 1] # Iv(k))
-                                 \/ k \in Closure({ e[2] : e \in { e \in E : e[1] = k } }, E, Len(uf))
+\* k -> the internal variables occurring in the binding of k (none for an unbound k); cyclic iff peeling off the
+\* variables without remaining successors does not exhaust the graph
+Succ(uf) == [k \in 0..(Len(uf) - 1) |-> IF uf[k + 1] = Iv(k) THEN {} ELSE IvsIn(uf[k + 1])]
+RECURSIVE Peel(_,_)
+Peel(S, succ) == LET done == { k \in S : succ[k] \cap S = {} } IN IF done = {} THEN S ELSE Peel(S \ done, succ)
+CyclicUf(uf) == LET succ == Succ(uf) IN Peel({ k \in 0..(Len(uf) - 1) : succ[k] # {} }, succ) # {}
 \* full resolution of a type under an ACYCLIC binding
 RECURSIVE Resolve(_,_)
 Resolve(uf, T) == CASE T[1] = "stv" -> IF IsIv(T) /\ IvIdx(T) < Len(uf) /\ uf[IvIdx(T) + 1] # T THEN Resolve(uf, uf[IvIdx(T) + 1]) ELSE T
@@ -87,29 +86,25 @@ ResolveTerm(uf, t) == CASE t[1] \in {"svar","var","const"} -> <<t[1], t[2], Reso
 
 \* ---- infer(t, bd_vars): returns [s, t (types filled in), T] ----
 R(s, t, T) == [s |-> s, t |-> t, T |-> T]
-\* avc = an ANNOTATED occurrence of a (schematic) variable is unified with the declared type / the type of the
-\*       other occurrences of that variable (absent from the code as found: only un-annotated occurrences share)
-Annot(s, t, al, declared, avc) ==
-  IF ~avc THEN s
-  ELSE IF t[2] \in Keys(declared) THEN Unify(s, t[3], Lookup(declared, t[2]))
-  ELSE IF t[2] \in Keys(al) THEN Unify(s, t[3], Lookup(al, t[2]))
-  ELSE s
-AnnotNew(t, al, declared, avc) == avc /\ t[2] \notin Keys(declared) /\ t[2] \notin Keys(al)
+\* One occurrence of a (schematic) variable.  al = incr_ctxt / incr_sctxt, decl = the declared types.
+\* The occurrence takes its annotation, else the declared type, else the type recorded for the name, else a new
+\* internal variable (recorded).  avc = ALL occurrences of a name are tied together: the first one is recorded,
+\* every later one is unified with the record (in the code as found only un-annotated, undeclared ones are).
+VarStep(t, s, al, decl, avc) ==
+  LET given  == t[3] # NoneT
+      isdecl == ~given /\ t[2] \in Keys(decl)
+      inal   == t[2] \in Keys(al)
+      fresh  == ~given /\ ~isdecl /\ ~inal
+      T  == IF given THEN t[3] ELSE IF isdecl THEN Lookup(decl, t[2]) ELSE IF inal THEN Lookup(al, t[2]) ELSE Iv(NumIv(s))
+      s0 == IF fresh THEN NewTypes(s, 1) ELSE s
+  IN [s  |-> IF avc /\ inal THEN Unify(s0, T, Lookup(al, t[2])) ELSE s0,
+      T  |-> T,
+      al |-> IF (fresh \/ avc) /\ ~inal THEN Append(al, <<t[2], T>>) ELSE al]
 RECURSIVE Infer(_,_,_,_,_,_)
 Infer(t, bd, s, ctx, sig, avc) ==
   IF s.st # "ok" THEN R(s, t, NoneT) ELSE
-  CASE t[1] = "svar" ->
-         IF t[3] # NoneT THEN LET s1 == Annot(s, t, s.isc, ctx.svars, avc) IN
-              R(IF AnnotNew(t, s.isc, ctx.svars, avc) THEN [s1 EXCEPT !.isc = Append(@, <<t[2], t[3]>>)] ELSE s1, t, t[3])
-         ELSE IF t[2] \in Keys(ctx.svars) THEN LET T == Lookup(ctx.svars, t[2]) IN R(s, <<"svar", t[2], T>>, T)
-         ELSE IF t[2] \in Keys(s.isc) THEN LET T == Lookup(s.isc, t[2]) IN R(s, <<"svar", t[2], T>>, T)
-         ELSE LET T == Iv(NumIv(s)) IN R([NewTypes(s, 1) EXCEPT !.isc = Append(@, <<t[2], T>>)], <<"svar", t[2], T>>, T)
-    [] t[1] = "var" ->
-         IF t[3] # NoneT THEN LET s1 == Annot(s, t, s.ic, ctx.vars, avc) IN
-              R(IF AnnotNew(t, s.ic, ctx.vars, avc) THEN [s1 EXCEPT !.ic = Append(@, <<t[2], t[3]>>)] ELSE s1, t, t[3])
-         ELSE IF t[2] \in Keys(ctx.vars) THEN LET T == Lookup(ctx.vars, t[2]) IN R(s, <<"var", t[2], T>>, T)
-         ELSE IF t[2] \in Keys(s.ic) THEN LET T == Lookup(s.ic, t[2]) IN R(s, <<"var", t[2], T>>, T)
-         ELSE LET T == Iv(NumIv(s)) IN R([NewTypes(s, 1) EXCEPT !.ic = Append(@, <<t[2], T>>)], <<"var", t[2], T>>, T)
+  CASE t[1] = "svar" -> LET v == VarStep(t, s, s.isc, ctx.svars, avc) IN R([v.s EXCEPT !.isc = v.al], <<"svar", t[2], v.T>>, v.T)
+    [] t[1] = "var" -> LET v == VarStep(t, s, s.ic, ctx.vars, avc) IN R([v.s EXCEPT !.ic = v.al], <<"var", t[2], v.T>>, v.T)
     [] t[1] = "const" ->
          IF t[3] # NoneT THEN R(s, t, t[3])
          ELSE IF t[2] \notin Keys(sig) THEN R(Fail(s, "nosig"), t, NoneT)
@@ -138,7 +133,7 @@ Infer(t, bd, s, ctx, sig, avc) ==
 \*   kind "term"     : t is the returned term
 \*        "own"      : TypeInferenceException, err is its kind
 \*        "diverged" : the final substitution loop does not terminate (cyclic binding accepted)
-\* foc = the implementation performs an occurs check on the final binding before substituting;  avc: see Annot
+\* foc = the implementation performs an occurs check on the final binding before substituting;  avc: see VarStep
 NoTerm == <<"none">>
 Unspecified(uf) == { k \in 1..Len(uf) : uf[k] = Iv(k - 1) }
 Outcome(skel, ctx, sig, foc, avc, forbid) ==
